@@ -45,8 +45,28 @@ RunSeq(cmds, i, st) == IF i > Len(cmds) THEN [rs |-> <<>>, s |-> st]
                              rest == RunSeq(cmds, i + 1, r.s)
                          IN [rs |-> <<r.r>> \o rest.rs, s |-> rest.s]
 
+(* a frame the driver damaged on purpose: the RESP specification decides whether it is malformed  *)
+(* (error), merely incomplete (the handler rightly waits) or still a frame (no demand)            *)
+R == INSTANCE Resp WITH MaxDepth <- 128
+(* listed finding fast_path_stray_byte: the GET / SET recognisers of the batching path take the header for 14 *)
+(* bytes (it has 13), so exactly the frames "<GET or SET header> <one stray byte> $..." are taken as commands  *)
+GetHdr == <<42, 50, 13, 10, 36, 51, 13, 10, 71, 69, 84, 13, 10>>
+GetHdrLc == <<42, 50, 13, 10, 36, 51, 13, 10, 103, 101, 116, 13, 10>>
+SetHdr == <<42, 51, 13, 10, 36, 51, 13, 10, 83, 69, 84, 13, 10>>
+SetHdrLc == <<42, 51, 13, 10, 36, 51, 13, 10, 115, 101, 116, 13, 10>>
+StrayByteShape(j) == Len(j) >= 15 /\ SubSeq(j, 1, 13) \in {GetHdr, GetHdrLc, SetHdr, SetHdrLc} /\ j[14] # 36 /\ j[15] = 36
+JunkIsMalformed(c) == "junk" \in DOMAIN c /\ Len(c.junk) > 0 /\ R!Decode(c.junk).k = "err"
 PipeVerdict(c) ==
   IF "panic" \in DOMAIN c THEN "connection handler panicked"
+  ELSE IF "junk" \in DOMAIN c /\ Len(c.junk) > 0 THEN
+       LET exp == RunSeq(c.cmds, 1, Empty)
+           n == Len(c.cmds)
+       IN IF Len(c.replies) < n THEN "fewer replies than commands (a command was swallowed or the handler hung)"
+          ELSE IF \E i \in 1..n : ~ReplyOk(exp.rs[i], c.replies[i]) THEN "a damaged frame altered the reply to an earlier command"
+          ELSE IF JunkIsMalformed(c) /\ (Len(c.replies) < n + 1 \/ c.replies[n + 1].t # "error") THEN
+               (IF StrayByteShape(c.junk) THEN "finding:fast_path_stray_byte"
+                ELSE "a malformed frame was not answered by an error reply (silence or a hang)")
+          ELSE "ok"
   ELSE LET exp == RunSeq(c.cmds, 1, Empty)
            n == Len(c.cmds)
        IN IF Len(c.replies) < n THEN "fewer replies than commands (a command was swallowed or the handler hung)"
@@ -120,7 +140,8 @@ TraceInit == l = 1
 TraceNext ==
   \/ /\ l <= Len(Rec)
      /\ LET v == Verdict(Rec[l]) IN
-          v # "ok" => PrintT(<<"VERDICT", ToJson([run |-> Rec[l].run, l |-> l, v |-> "bad", what |-> v])>>)
+          v # "ok" => PrintT(<<"VERDICT", ToJson([run |-> Rec[l].run, l |-> l,
+                                               v |-> IF v = "finding:fast_path_stray_byte" THEN "fast_path_stray_byte" ELSE "bad", what |-> v])>>)
      /\ l' = l + 1
   \/ l = Len(Rec) + 1 /\ PrintT(<<"VALIDATED", Len(Rec)>>) /\ l' = l + 1
 TraceSpec == TraceInit /\ [][TraceNext]_l
